@@ -108,6 +108,32 @@ func (r *run) witnessOverwrite() {
 	}
 }
 
+// probeRejectedPoison (deterministic, every run; must NOT fail on a correct tree): indexed header H
+// announces configuration A and is accepted through AddHeaders; a forged block at the same height H
+// announcing an attacker peer set (22..35), listed and signed by attacker keys only, is offered to
+// Ledger.AddBlock - verifyHeader rejects it (non-members) and the map must not change; a forged header
+// H+1 with last_config_block_num = H, listed and signed by attacker keys only, must then be rejected.
+func (r *run) probeRejectedPoison() {
+	c := r.c
+	a := r.next()
+	a.Last, a.Cfg = 0, &mCfg{C: 1, Peers: seq(8, 21)}
+	a.Bks, a.Sigs = seq(1, 7), validSigs(seq(1, 7))
+	if !r.doAdd(a, "honest-newcfg") {
+		c.Note("rejected-poison probe: configuration header rejected; probe skipped")
+		return
+	}
+	f := a
+	f.Salt++
+	f.Cfg = &mCfg{C: 0, Peers: seq(22, 35)}
+	f.Bks, f.Sigs = []int{22, 23}, validSigs([]int{22, 23})
+	if r.doAddBlock(f, "probe-rejected-poison-addblock") {
+		c.Fail("accept:attacker-signed-block-header", "a block header listed and signed only by non-members was accepted by verifyHeader", r.full("addblock", f), "accepted", "rejected")
+	}
+	p := r.next()
+	p.Last, p.Bks, p.Sigs = a.Height, []int{22, 23}, validSigs([]int{22, 23})
+	r.doAdd(p, "probe-rejected-poison-header") // judged by the oracle (nonmember / quorum / map clauses)
+}
+
 // satisfiable: can pool keys produce an accepted header against the configuration at height g?
 func (r *run) satisfiable(g uint32) bool {
 	cfg := r.e.cfgAt(g)
